@@ -1791,6 +1791,9 @@ fc_statements = [
         mixin=[
             "c_mixin_cfi_character_arg",
         ],
+        # strlen and memcpy are used in post_call.
+        c_impl_header=["<string.h>"],
+        cxx_impl_header=["<cstring>"],
         f_arg_decl=[        # replace mixin
             "character(len=:), intent({f_intent}), allocatable :: {c_var}",
         ],
@@ -1919,6 +1922,9 @@ fc_statements = [
         mixin=[
             "c_mixin_cfi_character_arg",
         ],
+        # memcpy is used in post_call.
+        c_impl_header=["<string.h>"],
+        cxx_impl_header=["<cstring>"],
         f_arg_decl=[        # replace mixin
             "character(len=:), intent({f_intent}), allocatable :: {c_var}",
         ],
